@@ -64,8 +64,11 @@ def row_operation_width(ck, F, rule, fn, floor=3):
         if e.callee.endswith(("::slice_mut", "::multi_slice_mut")):
             specs = all_slice_specs(e.args[1])
             for sp_ in specs:
-                if len(sp_) == 2:
+                # (a row index, a column range) is a row operation; (a row range, a column index) reads a column: not one
+                if len(sp_) == 2 and isinstance(sp_[1], tuple) and sp_[1] and sp_[1][0] == "struct":
                     slice_ops.append((e, sp_))
+                elif len(sp_) == 1:
+                    slice_ops.append((e, [None, sp_[0]]))     # a slice of one row view: the entry is the column range
     n = 0
     for e, sp_ in slice_ops:
         n += 1
